@@ -10,6 +10,7 @@ import (
 	"sync"
 
 	"github.com/go-critic/go-critic/checkers/analyzer"
+	"github.com/go-critic/go-critic/linter"
 	"golang.org/x/tools/go/analysis"
 	"verif.local/gcsim/simapi"
 	"verif.local/gcsim/simrt"
@@ -26,6 +27,11 @@ type anaExtra struct {
 	Parallel bool              `json:"parallel"`        // parallel passes under the scheduler, else sequential
 	Order    []int             `json:"order"`           // order in which passes are started
 	Fault    string            `json:"fault,omitempty"` // injected configuration fault (C19)
+	// Lib: the driver does not go through the analyzer package but uses the library the way
+	// an embedding driver does (golangci-lint's shape): per package action a fresh
+	// linter.Context and fresh checkers - hand-written AND embedded rule groups, which the
+	// analyzer package cannot offer (its registry snapshot predates their registration).
+	Lib bool `json:"lib,omitempty"`
 }
 
 // PassOutcome is what one pass produced.
@@ -138,6 +144,32 @@ func (w *Worker) execAnalyzer(ex *anaExtra, pkgs []string, v *simapi.Variant) *A
 			po.Return = simrt.Steps()
 		}()
 		c, cp, _ := w.passPkg(pkgs[i])
+		if ex.Lib {
+			ctx := linter.NewContext(c.Fset, c.Sizes)
+			var cs []*linter.Checker
+			for _, name := range strings.Split(ex.Flags["enable"], ",") {
+				info := w.infoBy[name]
+				if info == nil {
+					continue
+				}
+				ch, err := linter.NewChecker(ctx, info)
+				if err != nil {
+					po.Err = err.Error()
+					return
+				}
+				cs = append(cs, ch)
+			}
+			ctx.SetPackageInfo(cp.Pkg.TypesInfo, cp.Pkg.Types)
+			for fi, f := range cp.Files {
+				ctx.SetFileInfo(cp.FileNames[fi], f)
+				for _, ch := range cs {
+					for _, wn := range ch.Check(f) {
+						sinks[i] = append(sinks[i], analysis.Diagnostic{Pos: wn.Pos, Message: ch.Info.Name + ": " + wn.Text})
+					}
+				}
+			}
+			return
+		}
 		pass := w.makePass(c, cp, &sinks[i])
 		_, err := analyzer.Analyzer.Run(pass)
 		if err != nil {
@@ -228,6 +260,16 @@ func (w *Worker) genC04Analyzer(rc *simapi.RunConfig) {
 	}
 	ex := anaExtra{Flags: map[string]string{}, Parallel: true}
 	hw := w.handWritten()
+	if r.Intn(3) == 0 {
+		// the library under an embedding parallel driver: every registered checker is on offer
+		ex.Lib = true
+		hw = nil
+		for _, info := range w.infos {
+			if info.Name != "ruleguard" {
+				hw = append(hw, info.Name)
+			}
+		}
+	}
 	sel := map[string]bool{}
 	for _, p := range pkgs {
 		p = strings.TrimPrefix(p, "ref:")
@@ -252,7 +294,7 @@ func (w *Worker) genC04Analyzer(rc *simapi.RunConfig) {
 		names = append(names, s)
 	}
 	sort.Strings(names)
-	if r.Intn(3) == 0 {
+	if r.Intn(3) == 0 && !ex.Lib {
 		names = append(names, "ruleguard")
 		sort.Strings(names)
 		ex.Flags["@ruleguard.rules"] = rulesGlob()
